@@ -5,8 +5,8 @@ CONSTANTS
   NIdx = 1
   MaxReqs = {0, 1, 2}
   MaxOps = 5
-  SplitNew = FALSE
-  Defects = {"DestroyNotCounted"}
+  SplitNew = TRUE
+  Defects = {"OnewayReleasesOnFailure"}
 SPECIFICATION Spec
 INVARIANTS InvType InvBound InvCounts InvLiveOnOpen InvGoAwayDrains InvNoOrphan InvSlotUsable InvLimit InvAdmitOnUsable InvRefusalJustified InvRefusalNeutral InvNoDialAfterShutdown InvNeverNegative InvSendFail InvSendOk
 CHECK_DEADLOCK FALSE
